@@ -439,6 +439,39 @@ def run(ctx):
     tree_ = chain.Tree(rng, keys_)
     tree_.grow(5, fork_prob=0.2)
     node.write_path_probe(res, rng, node.probe_messages(tree_, keys_, rng), "broadcast of a found block")
+    # "is written to the block store": the miner thread hands its found block to the store at the moment the networking thread's
+    # flush has written its rows and not yet emptied the buffer (one fixed schedule of the two threads)
+    import os as _os
+    import skepticoin.blockstore as _bs
+    from . import c08 as _c08
+    path_ = _os.path.join(_os.getcwd(), "c12_handover.db")
+    if _os.path.exists(path_):
+        _os.remove(path_)
+    st_ = _bs.BlockStore(path_)
+    chain_ = []
+    h_ = tree_.cs.current_chain_hash
+    while h_ != b"\x00" * 32:
+        chain_.append(tree_.cs.block_by_hash[h_])
+        h_ = chain_[-1].previous_block_hash
+    chain_.reverse()
+    if len(chain_) >= 4:
+        for b_ in chain_[1:-1]:
+            st_.add_block_to_buffer(b_)
+        try:
+            _c08.concurrent_flush(st_, chain_[-1])
+        except Exception as e:
+            res.violations.append({"kind": "a found block handed to the store while a flush was in progress: the flush raised %r" % e})
+        st_.close()
+        st_ = _bs.BlockStore(path_)
+        got_ = {b_.hash() for b_ in st_.read_blocks_from_disk()}
+        res.case(("handover-during-flush", chain_[-1].hash()), nontrivial=True)
+        res.count("found_block_handed_over_during_a_flush")
+        if chain_[-1].hash() not in got_:
+            res.violations.append({"kind": "a found block handed to the store by the miner thread while the networking thread's flush "
+                                           "was in progress was never written to the block store (lost at the next restart)",
+                                   "block": chain_[-1].serialize().hex()})
+    st_.close()
+    _os.remove(path_)
     chain.unpatch()
     res.rule = ("the real MinerWatcher.handle_request_scrypt_input_message / handle_scrypt_output_message on a real node "
                 "(ChainManager, real BlockStore, greeted and ungreeted peers) over random forked chain states (production "
